@@ -23,7 +23,7 @@ RULE = ("random pipelines (subset of the 10 groups, 1-3 models per group, random
 ASSUMPTIONS = ["probe models stand for arbitrary models: ordering does not depend on what a model does",
                "deprecated entry points (exposure_mode etc.) are not driven"]
 REQUIRED_COUNTERS = ["probe_events", "m2_model_calls", "runs_exposure", "runs_observation",
-                     "runs_observation_dask", "runs_calibration", "runs_history", "calibration_evaluations_checked", "yaml_loaded",
+                     "runs_observation_dask", "runs_calibration", "runs_history", "runs_exposure_after_observation", "calibration_evaluations_checked", "yaml_loaded",
                      "debug_nodes_checked"]
 TIMEOUT = {"quick": 600, "thorough": 3000}
 
@@ -82,6 +82,18 @@ def rand_pipeline(rng, groups=None, force_image=False):
                                   "arguments": {"plan": {"*": ["image"]}, "seed": rng.randint(0, 99)},
                                   "enabled": True})
     return pspec
+
+
+TRUE_SPELLINGS = ["true", "True", "TRUE", "yes", "Yes", "YES", "on", "On", "ON"]
+FALSE_SPELLINGS = ["false", "False", "FALSE", "no", "No", "NO", "off", "Off", "OFF"]
+
+
+def yaml_text(rng, doc):
+    """YAML text of a document; the `enabled` flags use any of the YAML 1.1 boolean spellings."""
+    import re
+    text = build.dump_yaml(doc)
+    text = re.sub(r"enabled: true\b", lambda _m: "enabled: " + rng.choice(TRUE_SPELLINGS), text)
+    return re.sub(r"enabled: false\b", lambda _m: "enabled: " + rng.choice(FALSE_SPELLINGS), text)
 
 
 def first_enabled(pspec):
@@ -223,7 +235,7 @@ def run_case(rec, ctx, index, pspec, n_steps, mode, rng, label):
                 rng.shuffle(parts)
                 for k, v in parts:
                     doc[k] = v
-                cfg = pyxel.loads(build.dump_yaml(doc))
+                cfg = pyxel.loads(yaml_text(rng, doc))
                 rec.count("yaml_loaded")
                 detector = getattr(cfg, build.DETECTOR_KEYS[dspec["kind"]])
                 tree = pyxel.run_mode(mode=cfg.exposure, detector=detector, pipeline=cfg.pipeline,
@@ -247,7 +259,10 @@ def run_case(rec, ctx, index, pspec, n_steps, mode, rng, label):
                 return
             group, model = target
             values = rng.sample(range(10, 99), rng.randint(2, 3))
-            key = f"pipeline.{group}.{model['name']}.arguments.n"
+            # the swept setting is the argument `n` or an entry of a dictionary-valued argument
+            model["arguments"]["cfg"] = {"k0": 1, "k1": [0.5, {"deep": 2}]}
+            entry = rng.random() < 0.5
+            key = f"pipeline.{group}.{model['name']}.arguments." + ("cfg.k0" if entry else "n")
             dask = mode == "obs_dask"
             if mode == "obs_yaml":
                 order = list(pspec)
@@ -255,7 +270,7 @@ def run_case(rec, ctx, index, pspec, n_steps, mode, rng, label):
                 doc = {"pipeline": build.pipeline_yaml_dict(pspec, order),
                        "observation": {"readout": dict(rspec), "parameters": [{"key": key, "values": values}]}}
                 doc.update(build.detector_yaml_dict(dspec))
-                cfg = pyxel.loads(build.dump_yaml(doc))
+                cfg = pyxel.loads(yaml_text(rng, doc))
                 rec.count("yaml_loaded")
                 detector = getattr(cfg, build.DETECTOR_KEYS[dspec["kind"]])
                 obs, pipe = cfg.observation, cfg.pipeline
@@ -276,8 +291,12 @@ def run_case(rec, ctx, index, pspec, n_steps, mode, rng, label):
                 ps = copy.deepcopy(pspec)
                 for m in ps[group]:
                     if m["name"] == model["name"]:
-                        m["arguments"]["n"] = v
+                        if entry:
+                            m["arguments"]["cfg"]["k0"] = v
+                        else:
+                            m["arguments"]["n"] = v
                 expected_runs.append(build.expected_calls(ps, n_steps))
+            followup = (pipe, detector, rspec) if mode != "obs_yaml" or True else None
             evs = probes.events()
             if any(e["det"] == id(detector) for e in evs):
                 rec.violation("C01:obs:callers-detector-used", "an observation run executed on the caller's detector object", case, index)
@@ -289,6 +308,17 @@ def run_case(rec, ctx, index, pspec, n_steps, mode, rng, label):
     evs = probes.events()
     rec.count("probe_events", len(evs))
     compare(rec, evs, list(ctx.mon.calls), expected_runs, allow_extra, mech, case, index)
+    if not mode.startswith("exp"):
+        # history: the caller's pipeline, run as a plain exposure afterwards, still gets the configured arguments
+        probes.reset()
+        ctx.mon.reset()
+        try:
+            pyxel.run_mode(mode=Exposure(readout=Readout(**rspec)), detector=detector, pipeline=pipe, with_inherited_coords=True)
+            rec.count("runs_exposure_after_observation")
+            compare(rec, probes.events(), list(ctx.mon.calls), [build.expected_calls(pspec, n_steps)], False,
+                    "C01:exposure-after-observation", case, index)
+        except Exception as exc:  # noqa: BLE001
+            rec.violation("C01:exposure-after-observation:unexpected-exception", f"{type(exc).__name__}: {exc}", case, index)
     rec.observe("modes", mode)
     rec.observe("n_groups", len(pspec))
     rec.case(sig, nontrivial, sample=case)
